@@ -19,7 +19,7 @@ RULE = (
     "assignment (stream); distinct by canonical JSON of the concrete operation log."
 )
 ASSUMPTIONS = [
-    "duties are positive and coefficients > 0 (documented domain); members are not mutated while inside a collection",
+    "coefficients > 0 (documented domain); duties are positive or, in a quarter of the assignments, negative (the source sign convention the code accepts: it makes an isothermal stream a heat source); members are not mutated while inside a collection",
     "ties in the sort key may appear in any order (checked: permutation of the members and monotone in the key)",
     "float comparisons 1e-9 relative",
 ]
@@ -44,6 +44,8 @@ class StreamInterp:
     def _expand(self):
         if self.m["ts"] == self.m["tt"] and self.m["q"] > 0:
             self.m["tt"] = self.m["ts"] + 0.01  # documented: becomes a 0.01 K cold (latent) stream
+        elif self.m["ts"] == self.m["tt"] and self.m["q"] < 0:
+            self.m["tt"] = self.m["ts"] - 0.01  # source sign convention: a negative duty makes it a 0.01 K hot (latent) stream
 
     def step(self, op):
         m, s = self.m, self.s
@@ -133,6 +135,8 @@ def finalize_stream(out, init, ops, flips):
 def stream_machine(col, tier):
     temp = st.sampled_from(TEMPS)
     pos = st.one_of(st.sampled_from([1.0, 10.0, 100.0, 2500.0]), st.integers(1, 100000).map(lambda k: k / 10))
+    # the source sign convention (negative duty = heat source) is accepted too: it decides the kind of an isothermal stream
+    pos = st.one_of(pos, pos, pos, pos.map(lambda x: -x))
 
     class StreamMachine(LoggedMachine):
         @initialize(ts=temp, tt=temp, q=pos, dt=st.sampled_from([0.0, 2.5, 5.0, 10.0]), htc=st.sampled_from([1.0, 0.5, 2.0, 0.05]))
